@@ -230,6 +230,12 @@ def generate(rng, tier):
                 enc[j + 1:j + 5] = struct.pack(">I", rng.choice([0xFFFFFFFF, 1000000, 0x80000000]))
                 break
         yield "amf0 decm " + hexs(bytes(enc))
+    # --- nesting depth: decoded in a child process on a 2 MiB stack (deepx = the class of known finding K1) ---
+    for d in (1, 10, 100, 1000, 3000):
+        yield "amf0 deep %d 2048" % d
+    yield "amf0 deepx 20000 2048"
+    if tier == "thorough":
+        yield "amf0 deepx 3355443 8192"          # 16 MiB of nested headers on an 8 MiB stack
     # --- malformed stream: random bytes and mutated valid encodings ---
     n_bad = 800 if tier == "quick" else 30000
     for i in range(n_bad):
@@ -248,11 +254,11 @@ def nontrivial(case):
     t = case.split()
     if t[1] == "enc":
         return len(t) > 4
-    return len(t[2]) > 4 if t[1] in ("dec", "decx") else True
+    return len(t[2]) > 4 if t[1] in ("dec", "decx", "decm") else True
 
 
 def distribution(lines):
-    d = {"enc": 0, "decx": 0, "dec": 0, "dect": 0, "decm": 0, "with_object": 0, "with_array": 0, "huge_string": 0,
+    d = {"enc": 0, "decx": 0, "dec": 0, "dect": 0, "decm": 0, "deep": 0, "deepx": 0, "with_object": 0, "with_array": 0, "huge_string": 0,
          "nan_or_special_number": 0, "empty_name": 0}
     for l in lines:
         t = l.split()
